@@ -267,3 +267,21 @@ package routing
 //@ func (*Manager).GetDisplayName
 //@ prop C13 C06
 //@ note no modifies clause: proved to change nothing (a map read under the read lock)
+
+// ---- C08 / C10: removing one origin's route keeps the remaining routes of the prefix in order ----
+
+//@ func (*Table).RemoveRoute
+//@ prop C08 C10
+//@ check lockset bounds
+//@ modifies *
+//@ after call String let k = $ret
+//@ after call Lock let n0 = len(t.routes[k])
+//@ loop 0 invariant -1 <= rangeindex && rangeindex < len(routes) && routes == t.routes[k] && len(routes) == n0 && forall j in 0..rangeindex+1: routes[j].OriginAgent != originAgent
+//@ after call Lock let wasSorted = forall a in 0..len(t.routes[k]): forall b in a..len(t.routes[k]): t.routes[k][a].Metric <= t.routes[k][b].Metric
+//@ ensures[C10] result && network != nil ==> len(t.routes[k]) == n0 - 1 || !has(t.routes, k)
+//@ ensures[C08] result && network != nil && wasSorted && has(t.routes, k) && len(t.routes[k]) >= 2 ==> t.routes[k][0].Metric <= t.routes[k][1].Metric
+//@ ensures[C08] result && network != nil && wasSorted && has(t.routes, k) && len(t.routes[k]) >= 3 ==> t.routes[k][1].Metric <= t.routes[k][2].Metric
+//@ ensures[C08] result && network != nil && wasSorted && has(t.routes, k) && len(t.routes[k]) >= 4 ==> t.routes[k][2].Metric <= t.routes[k][3].Metric
+//@ note BOUNDED (k = 4): the three clauses above are the instances for the first four entries of 'a list that was sorted by metric when the lock was taken is still sorted after the removal'. The general quantified clause is true of this code but is not discharged: the solvers' e-matching does not see through the index arithmetic of the in-place append (shift by one) to instantiate the sortedness hypothesis. Not counted as a proof of order preservation for longer lists.
+//@ ensures[C10] !result && network != nil ==> forall j in 0..len(t.routes[k]): t.routes[k][j].OriginAgent != originAgent
+//@ note C08: lookups return the first entry of a prefix's list, so every mutator must leave the list sorted by metric; removal is order-preserving
